@@ -58,6 +58,13 @@ CASES = [
                       ["new", "-m", "a", "a"], ["!git", "rm", "-q", "s.txt"], ["refresh"], ["pop"],
                       ["new", "-m", "b", "b"], ["!git", "rm", "-q", "s.txt"], ["!write", "k.txt", "k\n"],
                       ["refresh"]], ["push", "a"]),
+    # a work-tree merge followed by a further patch: execute()'s own check-out has real work to
+    # do afterwards, and its failure must roll the merged content back as well
+    ("push-wtmerge-two", [["!write", "f.txt", "1\n2\n3\n4\n5\n6\n7\n8\n"], ["!git", "commit", "-q", "-m", "add f"],
+                          ["new", "-m", "edit", "edit"], ["!write", "f.txt", "1\n2\n3\n4\n5\n6\n7\nEIGHT\n"],
+                          ["refresh"], ["new", "-m", "addh", "addh"], ["!write", "h.txt", "h\n"], ["refresh"],
+                          ["pop", "-a"], ["new", "-m", "ren", "ren"], ["!git", "mv", "f.txt", "g.txt"],
+                          ["refresh"]], ["push", "edit", "addh"]),
 ]
 
 
@@ -226,6 +233,16 @@ def analyse_trace(stg, case, tag):
             info = {"new_state": new_state, "ext": ext, "set_head": bool(branch_edit), "new_head": new_head,
                     "new_tree": new_tree, "ntx": ntx, "ext_early": False}
         pd.remove()
+    if info and any(nm == "push.before_wt_merge" for (_, nm, _) in log):
+        # what the closure's work-tree merge left checked out: seen on arrival at exec.start
+        with repo.Scratch(tag) as r3:
+            setup_case(r3, stg, setup)
+            pd3 = rigs.PointDir(r3)
+            r3.tick = 2000000000
+            rigs.run_with_point(r3, stg, cmd, pd3, "exec.start:%d:kill" % info["ntx"])
+            o3 = observe(r3)
+            info["wt_merge_tree"] = o3["tree"] if not o3["unmerged"] else None
+            pd3.remove()
     if info and info["ext"]:
         # undo/redo log the external modification before the transaction is set up: seen as
         # a state ref that has already moved when the process arrives at exec.start
@@ -251,7 +268,7 @@ def plan_fields(tr, w0):
             updates.append("%s=%s" % (k[2:], "del" if e[0] == "delete" else ids.of(e[2])))
     wt_merge = "_"
     if any(nm == "push.before_wt_merge" for (_, nm, _) in tr["log"]):
-        wt_merge = str(ids.of(tr["s1"]["tree"] or "unmerged-after-merge"))
+        wt_merge = str(ids.of(info.get("wt_merge_tree") or "unmerged-after-merge"))
     old_tree = ids.of(w0["tree"])
     new_tree = ids.of(info["new_tree"])
     does_checkout = info["set_head"] and (tr["s1"]["tree"] == info["new_tree"] or tr["s1"]["unmerged"]) \
